@@ -1209,7 +1209,9 @@ fn td_to_render_tree<'a, T: Write>(
         for attr in attrs.borrow().iter() {
             if &attr.name.local == "colspan" {
                 let v: &str = &attr.value;
-                colspan = v.parse().unwrap_or(1);
+                // HTML limits colspan to 1000; clamping also keeps the column
+                // arithmetic far away from overflow.
+                colspan = v.parse().unwrap_or(1).min(1000);
             }
         }
     }
